@@ -5,7 +5,7 @@ import hashlib
 import random
 
 from . import specexec as S
-from .memsock import MemSock
+from .memsock import MemSock, HarnessHang
 
 GUID = b"258EAFA5-E914-47DA-95CA-C5AB0DC85B11"
 DOCUMENTED = ("WebSocketException", "WebSocketProtocolException", "WebSocketPayloadException", "WebSocketConnectionClosedException",
@@ -115,6 +115,8 @@ def run_case(name, mk, opts, chunking="whole", tail=b""):
     exc = None
     try:
         ws.connect("ws://example.com/x", socket=sock, **opts)
+    except HarnessHang as ex:
+        return [f"endless read loop: {ex}"]
     except Exception as ex:  # noqa
         exc = ex
     req = getattr(sock, "last_request", b"")
@@ -148,6 +150,8 @@ def run_case(name, mk, opts, chunking="whole", tail=b""):
             got = ws.recv()
             if got != "hi":
                 problems.append(f"frame after the handshake response lost or corrupted: {got!r}")
+        except HarnessHang as ex:
+            problems.append(f"endless read loop: {ex}")
         except Exception as ex:  # noqa
             problems.append(f"frame after the handshake response lost: {type(ex).__name__}")
     return problems
